@@ -425,6 +425,21 @@ def build(tier="quick", seed=0):
                         lambda p: (p.value == ([("wstring", "x"), ("varint", "z")], [("string", "xw"), ("varint", "z")], "2", [("wstring", "x")], [("string", "xw")]), f"extended / projected descriptors {p.value}")),
                         replay=lambda w: {"call": "c15_colliding", "args": {}}, functions=FU, mode="concrete history through extend_record and one rewriter"))
 
+    # extending a record TYPE (RecordDescriptor.extend): the type's fields in order, then the new ones in order, under the same name; the original type is unchanged
+    def th_desc_extend():
+        A = it.call(RD, ["c15/de", [("string", "a"), ("varint", "b")]], {})
+        before = (fields_of(A), it.getattr_(A, "name"))
+        E1 = it.call(it.getattr_(A, "extend"), [[("uint16", "c"), ("string[]", "d")]], {})
+        E0 = it.call(it.getattr_(A, "extend"), [[]], {})
+        r = it.call(E1, [], {"a": "x", "b": 2, "c": 3, "d": ["y"]})
+        return (fields_of(E1), it.getattr_(E1, "name"), fields_of(E0), it.getattr_(E0, "name"), (fields_of(A), it.getattr_(A, "name")) == before, fields_of(A),
+                [it.unbase(r.attrs.get(k)) if k != "d" else [it.unbase(v) for v in it.unbase(r.attrs.get(k))] for k in ("a", "b", "c", "d")])
+
+    pack.add(Obligation("C15.extend.descriptor[RecordDescriptor.extend appends in order, same name, original unchanged]", lambda tier: prove_paths("C15.extend.descriptor[RecordDescriptor.extend appends in order, same name, original unchanged]", th_desc_extend,
+                        lambda p: (p.value == ([("string", "a"), ("varint", "b"), ("uint16", "c"), ("string[]", "d")], "c15/de", [("string", "a"), ("varint", "b")], "c15/de", True, [("string", "a"), ("varint", "b")], ["x", 2, 3, ["y"]]),
+                                   f"extended type / name / extended by nothing / name / original unchanged / original / a record of it: {p.value}")),
+                        replay=lambda w: {"call": "c15_desc_extend", "args": {}}, functions=FU + ("flow.record.base:RecordDescriptor.extend",), mode="concrete history through RecordDescriptor.extend"))
+
     # a member field whose name is one of GroupedRecord's own attributes
     for fname in ("name", "records", "descriptors", "flat_fields"):
         name = f"C15.grouped.collision[member field named {fname}]"
